@@ -491,6 +491,23 @@ pub fn c09_instances(_tier: Tier) -> Vec<Instance> {
                     }
                 }
             }
+            // the other fields of the VER (game version text with and without a test-patch revision, product) have no say
+            for verify in [true, false] {
+                for v in 0..=255u8 {
+                    for (gi, game) in ["0.7E12", "0.6U13", "0.04K", "1A"].iter().enumerate() {
+                        let mut f = f_ver(c, v);
+                        let mut g = game.as_bytes().to_vec();
+                        g.resize(8, 0);
+                        f[4..12].copy_from_slice(&g);
+                        if gi % 2 == 1 { f[12..18].copy_from_slice(b"DEMO\0\0"); }
+                        let mut i = Instance::new(&format!("ver-text#{cname}#v{v}-{game}-verify-{verify}#{}", imp_name(imp)), imp, c, vec![f, f_small(c)]);
+                        i.verify_version = verify;
+                        i.chunks = Chunks::WholeOrBytes;
+                        i.allow_eof = false;
+                        out.push(i);
+                    }
+                }
+            }
             // 300 version packets on one connection, alternately acceptable and not
             for verify in [true, false] {
                 let mut frames = vec![];
@@ -618,6 +635,8 @@ fn drop_write_instances(c: bool, family: &str) -> Vec<Instance> {
         ("write", Packet::Small(Small { reqi: RequestId(7), subt: SmallType::Vta(VtnAction::End) }), false),
         // the same through handshake(): the ISI is a packet like any other as far as the wire goes
         ("handshake", Packet::Isi(insim::insim::Isi { reqi: RequestId(1), iname: "verif".into(), ..Default::default() }), true),
+        // the application answers keep-alives by hand as well: its packet is byte for byte a reply
+        ("write-a-reply", Packet::Tiny(Tiny { reqi: RequestId(0), subt: TinyType::None }), false),
     ];
     for (uname, user, via_handshake) in &users {
     for seq in sequences(&alpha, 2) {
@@ -633,7 +652,8 @@ fn drop_write_instances(c: bool, family: &str) -> Vec<Instance> {
             i.script_writes = true;
             i.allow_eof = true;
             i.cancel_budget = 2;
-            i.cancel_writes = true;
+            // (a reply-shaped packet torn by a dropped write could not be told from a torn reply)
+            i.cancel_writes = *uname != "write-a-reply";
             i.isi_via_handshake = *via_handshake;
             i.pending_budget = 1;
             i.slow_flush = 1;
